@@ -564,6 +564,12 @@ theorem metrics_timers_audited :
     * config_entry.go `validateJWTProvider` referencedProviderNames — multierror assembled in map
       order: same class (error TEXT order), FOUND by this harness
       (`replica:error-text:validateJWTProvider`), REPAIRED by the same commit (names sorted first).
+    * config_entry.go `sortedServiceIDs` m — collects the keys of a map and sorts them before
+      returning: the helper of the REPAIR f171f7a of `validateChainIsPeerExportSafe`, whose three
+      ranges over the fields `chainEntries.Routers/.Splitters/.Resolvers` (maps reached through a
+      struct field, outside this extractor's view) returned the first complaint in map order —
+      error TEXT of a rejected config-entry write differed per replica, FOUND by this harness
+      (`replica:error-text:validateChainIsPeerExportSafe`).
     * config_entry.go `listDiscoveryChainNamesTxn` overrides — set insert/delete per override key;
       every caller passes at most one override entry, result sorted.
     * config_entry.go `readDiscoveryChainConfigEntriesTxn` todoPeers, `anyKey` m — worklist
@@ -602,6 +608,7 @@ def mapRangeAllowlist : List (String × String × String) := [
   ("agent/consul/state/config_entry.go", "validateJWTProvider", "referencedProviderNames"),
   ("agent/consul/state/config_entry.go", "Store.discoveryChainSourcesTxn", "seenLink"),
   ("agent/consul/state/config_entry.go", "validateProposedConfigEntryInServiceGraph", "checkChains"),
+  ("agent/consul/state/config_entry.go", "sortedServiceIDs", "m"),
   ("agent/consul/state/config_entry.go", "Store.ReadResolvedServiceConfigEntries", "seenUpstreams"),
   ("agent/consul/state/config_entry.go", "readDiscoveryChainConfigEntriesTxn", "todoPeers"),
   ("agent/consul/state/config_entry.go", "anyKey", "m"),
@@ -619,6 +626,52 @@ def mapRangeAllowlist : List (String × String × String) := [
 
 /-- The map ranges of the source are exactly the reviewed list. -/
 theorem map_ranges_audited : mapRanges = mapRangeAllowlist := rfl
+
+/-- Functions of `agent/consul/fsm`, `agent/consul/state` and `agent/structs` in which a range over a
+    local Go map appends to a slice that nothing in the function sorts afterwards: whoever consumes
+    that slice sees the map's iteration order. REVIEWED:
+    * state: `serviceListTxn`, `CheckIngressServiceNodes`, `combinedServiceNodesTxn`,
+      `discoveryChainSourcesTxn`, `getUniqueExportedServices`, `intentionTopologyTxn` — results of
+      read-only queries (catalog / topology / exported-services RPCs); `ServiceHealthEventsFromChanges`
+      — stream events built at commit (C11). None is consumed by a write.
+    * structs: `ACLServiceIdentities.Deduplicate` — returns the identities in MAP ORDER. Today its only
+      callers are the ACL endpoint and the auth-method binder, i.e. the leader BEFORE the command is
+      appended to the log, so the order travels inside the command. A call from an apply-path function
+      would put a map-ordered slice (and the token hash computed from it) into replicated rows: that is
+      the seeded regression C01-3, and what `unsorted_producer_calls_audited` pins. -/
+def unsortedMapAppendAllowlist : List (String × String × String × String) := [
+  ("agent/consul/state/catalog.go", "serviceListTxn", "unique", "results"),
+  ("agent/consul/state/catalog.go", "Store.CheckIngressServiceNodes", "names", "results"),
+  ("agent/consul/state/catalog.go", "Store.combinedServiceNodesTxn", "dedupMap", "resp"),
+  ("agent/consul/state/catalog_events.go", "ServiceHealthEventsFromChanges", "nodeChanges", "events"),
+  ("agent/consul/state/catalog_events.go", "ServiceHealthEventsFromChanges", "serviceChanges", "events"),
+  ("agent/consul/state/catalog_events.go", "ServiceHealthEventsFromChanges", "termGatewayChanges", "events"),
+  ("agent/consul/state/config_entry.go", "Store.discoveryChainSourcesTxn", "seenLink", "resp"),
+  ("agent/consul/state/config_entry_exported_services.go", "getUniqueExportedServices", "cons", "consumers"),
+  ("agent/consul/state/intention.go", "Store.intentionTopologyTxn", "services", "result"),
+  ("agent/structs/acl.go", "ACLServiceIdentities.Deduplicate", "unique", "results")]
+
+theorem unsorted_map_appends_audited : unsortedMapAppends = unsortedMapAppendAllowlist := rfl
+
+/-- Calls, from `agent/consul/fsm` and `agent/consul/state`, of anything NAMED like one of the functions
+    above (syntactic: the receiver type is unknown, so every `.Deduplicate(…)`, `serviceListTxn(…)`, …
+    counts). REVIEWED: all nine are read-path callers (`Store.ServiceList`, `Store.ServiceTopology`,
+    `downstreamsForServiceTxn`, `resolvedExportedServicesTxn`, `Store.IntentionTopology`,
+    `Store.TrustBundleListByService`). A new entry — e.g. `aclTokenSetTxn` calling
+    `token.ServiceIdentities.Deduplicate` — means an apply-path function started to consume a slice
+    that may be in map order and has to be reviewed. -/
+def unsortedProducerCallAllowlist : List (String × String × String) := [
+  ("agent/consul/state/catalog.go", "Store.ServiceList", "serviceListTxn"),
+  ("agent/consul/state/catalog.go", "Store.ServiceTopology", "s.intentionTopologyTxn"),
+  ("agent/consul/state/catalog.go", "Store.ServiceTopology", "s.combinedServiceNodesTxn"),
+  ("agent/consul/state/catalog.go", "Store.ServiceTopology", "s.intentionTopologyTxn"),
+  ("agent/consul/state/catalog.go", "Store.ServiceTopology", "s.combinedServiceNodesTxn"),
+  ("agent/consul/state/catalog.go", "Store.downstreamsForServiceTxn", "s.discoveryChainSourcesTxn"),
+  ("agent/consul/state/config_entry_exported_services.go", "resolvedExportedServicesTxn", "getUniqueExportedServices"),
+  ("agent/consul/state/intention.go", "Store.IntentionTopology", "s.intentionTopologyTxn"),
+  ("agent/consul/state/peering.go", "Store.TrustBundleListByService", "s.discoveryChainSourcesTxn")]
+
+theorem unsorted_producer_calls_audited : unsortedProducerCalls = unsortedProducerCallAllowlist := rfl
 
 /-- The message-type constant block is append-only history ("entries must only ever be added"):
     the reviewed prefix of 46 constants and the flag. -/
